@@ -11,7 +11,7 @@ From Supp Require Import Model.PyCore.
 
 Fixpoint an (c : cmd) (s : aenv) : aenv :=
   match c with
-  | Skip | Read _ _ | Return => s                 (* supp ignores early exits *)
+  | Skip | Read _ _ | Exit _ => s                 (* supp ignores early exits *)
   | Seq a b => an b (an a s)
   | Bind d x => upd s x [Some d]
   | Branch a b => join (an a s) (an b s)          (* join flow, parents [body, orelse] *)
@@ -41,7 +41,7 @@ Definition eqb_site := N.eqb.
 
 Fixpoint seen (c : cmd) (s : aenv) (r : site) : list alt :=
   match c with
-  | Skip | Bind _ _ | Return => []
+  | Skip | Bind _ _ | Exit _ => []
   | Read r' x => if N.eqb r r' then s x else []
   | Seq a b => seen a s r ++ seen b (an a s) r
   | Branch a b => seen a s r ++ seen b s r
@@ -71,7 +71,7 @@ with seen_h (hs : hlist) (hin : aenv) (r : site) : list alt :=
 (* all (read site, name) pairs of a command, in source order *)
 Fixpoint reads (c : cmd) : list (site * name) :=
   match c with
-  | Skip | Bind _ _ | Return => []
+  | Skip | Bind _ _ | Exit _ => []
   | Read r x => [(r, x)]
   | Seq a b | Branch a b => reads a ++ reads b
   | While t b e | For t b e => reads t ++ reads b ++ reads e
@@ -85,7 +85,7 @@ with reads_h (hs : hlist) : list (site * name) :=
 
 Fixpoint bind_sites (c : cmd) : list site :=
   match c with
-  | Skip | Read _ _ | Return => []
+  | Skip | Read _ _ | Exit _ => []
   | Bind d _ => [d]
   | Seq a b | Branch a b => bind_sites a ++ bind_sites b
   | While t b e | For t b e => bind_sites t ++ bind_sites b ++ bind_sites e
